@@ -91,9 +91,34 @@ fn main() {
                         if i >= lines.len() {
                             break;
                         }
+                        // odd while at least this case is in flight: the watchdog sees a stuck thread as
+                        // "no progress while odd" (another thread finishing flips it, which only delays it)
+                        PROGRESS.fetch_add(1, Ordering::Relaxed);
                         let r = ops::run_line(lines[i].trim_end());
+                        PROGRESS.fetch_add(1, Ordering::Relaxed);
                         results.lock().unwrap()[i] = r;
                     }));
+                }
+                // all threads but a stuck one come to an end; then nothing moves any more
+                let started = std::time::Instant::now();
+                let mut last = u64::MAX;
+                let mut still = 0;
+                loop {
+                    if hs.iter().all(|h| h.is_finished()) {
+                        break;
+                    }
+                    std::thread::sleep(std::time::Duration::from_millis(200));
+                    let p = PROGRESS.load(Ordering::Relaxed);
+                    if p == last {
+                        still += 1;
+                        if still >= 50 {
+                            let _ = started;
+                            std::process::exit(97);
+                        }
+                    } else {
+                        still = 0;
+                        last = p;
+                    }
                 }
                 for h in hs {
                     h.join().unwrap();
